@@ -53,7 +53,12 @@ RULE = ("sealed trees (flat / nested, 1-3 generations, with and without ignore p
         "the generations read back independently. Non-trivial: at least one mutation step.")
 # recorded inputs that run first on every run: a folder recorded without directory hashes (-n) vanishes (renamed) and create -dr
 # has new paths to compare with -- the rename detection must not end in an internal error (it did: AttributeError on None)
-CORPUS = [{"tree": {"D": {"d": {"a.txt": {"f": "414141"}}}, "z.txt": {"f": "5a5a"}},
+CORPUS = [{"tree": {"a.bin": {"f": "0102"}, "b.bin": {"f": "0304"}, "D": {"d": {"c.bin": {"f": "0506"}, "E": {"d": {}}}}},
+           # several things wrong at once: a file altered AND other entries removed -- the exit code is the altered file's, and
+           # the removed paths are still named
+           "steps": [{"op": "create", "fmts": ["md5"]}, {"op": "set", "path": "a.bin", "data": "ffff"}, {"op": "delete", "path": "b.bin"},
+                     {"op": "delete", "path": "D/E"}, {"op": "verify"}, {"op": "diff"}, {"op": "create", "fmts": ["md5"]}]},
+          {"tree": {"D": {"d": {"a.txt": {"f": "414141"}}}, "z.txt": {"f": "5a5a"}},
            "steps": [{"op": "create", "fmts": ["md5"], "n": True}, {"op": "rename", "path": "D", "to": "E"}, {"op": "create", "fmts": ["md5"], "n": True, "dr": True}]},
           {"tree": {"D": {"d": {}}, "z.txt": {"f": "5a5a"}},
            "steps": [{"op": "create", "fmts": ["xxh64"], "n": True}, {"op": "delete", "path": "D"}, {"op": "add", "path": "new.bin", "data": "0102"},
